@@ -204,7 +204,7 @@ def r19d(chk, rid='R19.d'):
     m = chk.repo.mod(INIT)
     init, call = m.get('Replacer.__init__'), m.get('Replacer.__call__')
     root = 'http://host/css/site.css'
-    hrefs = ['x.css', 'sub/x.css', 'sub/deep/x.css', '../up/x.css', './x.css', '/abs/x.css', 'http://other/d/x.css', '//other/d/x.css']
+    hrefs = ['x.css', 'sub/x.css', 'sub/deep/x.css', '../up/x.css', './x.css', '/abs/x.css', 'http://other/d/x.css', '//other/d/x.css', 'http://host/css/sub/x.css']
     urls = ['i.png', 'img/i.png', '../i.png', './a/../i.png', 'font.eot?#iefix', 'a.svg#frag', 'q.png?v=2', 'a b.png', 'a%20b.png', 'p%25q.png', '/root.png', '//cdn/x.png', 'http://o/x.png', 'data:image/png;base64,AA==', 'mailto:x@y']
     n = 0
     bad = []
@@ -216,8 +216,10 @@ def r19d(chk, rid='R19.d'):
         for url in urls:
             got = Evaluator(call, module=m, cls='Replacer').run(self=me, uri=url)
             n += 1
+            nbad = len(bad)
             if isinstance(got, Raised) or not isinstance(got, str):
                 bad.append(f'Replacer({href!r})({url!r}) gives {got!r}')
+                chk.ob(rid, INIT, 'Replacer.__call__', f'@import {href!r}: url({url}) keeps its meaning', False, bad[-1])
                 continue
             parts = urllib.parse.urlsplit(url)
             want = urllib.parse.urljoin(urllib.parse.urljoin(root, href), url)
@@ -228,9 +230,8 @@ def r19d(chk, rid='R19.d'):
                     bad.append(f'Replacer({href!r})({url!r}) changes an absolute URL to {got!r}')
             elif urllib.parse.unquote(want) != urllib.parse.unquote(have):
                 bad.append(f'Replacer({href!r})({url!r}) gives {got!r}: resolves to {have}, the original to {want}')
+            chk.ob(rid, INIT, 'Replacer.__call__', f'@import {href!r}: url({url}) keeps its meaning', len(bad) == nbad, bad[-1] if len(bad) > nbad else '', trivial=True)
     chk.extra['rebasing_cases'] = n
-    for b_ in bad[:3]:
-        chk.ob(rid, INIT, 'Replacer.__call__', 're-based URL denotes the same resource', False, b_)
     chk.ob(rid, INIT, 'Replacer.__call__', f'all {n} (import href, URL) pairs keep their meaning', not bad, f'{len(bad)} pairs do not')
 
 
